@@ -537,6 +537,8 @@ enum At {
     Step(usize),
     SetupStep(usize),
     AfterSetup,
+    /// the knowledge base that was left behind at a `clone()` and not touched since, observed at the end
+    LeftBehind(usize),
 }
 
 impl std::fmt::Display for At {
@@ -546,6 +548,7 @@ impl std::fmt::Display for At {
             At::Step(i) => write!(f, "step {}", i),
             At::SetupStep(i) => write!(f, "setup step {}", i),
             At::AfterSetup => write!(f, "after setup"),
+            At::LeftBehind(i) => write!(f, "at the end, on the object left untouched since the clone() before step {}", i),
         }
     }
 }
@@ -593,15 +596,41 @@ pub fn run_seq(s: &mut Src, ctx: &mut Ctx) -> Verdict {
     if probe_only() {
         return Verdict::Pass;
     }
-    ctx.describe(|| join_ops(&ops));
-    let kb = KnowledgeBase::new("kb");
+    // drawn last: in one random history in four the knowledge base is cloned before some step; the history goes on with
+    // the original or with the clone, and the other object - which nobody touches any more - must at the end still
+    // answer every observer as it did when the two parted
+    let clone_plan: Option<(usize, bool)> = if ctx.exh == 0 && s.chance(1, 4) { Some((s.below(ops.len() + 1), s.bool())) } else { None };
+    ctx.describe(|| match clone_plan {
+        Some((p, on_clone)) => format!("{} [clone() before step {}, the history continues on the {}]", join_ops(&ops), p, if on_clone { "clone" } else { "original" }),
+        None => join_ops(&ops),
+    });
+    let mut kb = KnowledgeBase::new("kb");
     let mut m = Model::new(kb.version());
     if let Some(v) = observe_all(&kb, &mut m, "new", At::Empty) {
         return v;
     }
     let mut removed_names: u8 = 0;
     let mut shifting_remove = false;
+    let mut left_behind: Option<(KnowledgeBase, Model, usize)> = None;
+    let part_ways = |kb: &mut KnowledgeBase, m: &mut Model, pos: usize, on_clone: bool| -> (KnowledgeBase, Model, usize) {
+        let c = kb.clone();
+        // a clone holds the same rules in the same listing order; its version counter is its own
+        let cm = Model { rules: m.listing(), vlo: c.version(), vexact: true };
+        if on_clone {
+            let orig = std::mem::replace(kb, c);
+            let om = std::mem::replace(m, cm);
+            (orig, om, pos)
+        } else {
+            (c, cm, pos)
+        }
+    };
     for (i, op) in ops.iter().enumerate() {
+        if let Some((p, on_clone)) = clone_plan {
+            if p == i {
+                left_behind = Some(part_ways(&mut kb, &mut m, p, on_clone));
+                ctx.label("clone-mid-history");
+            }
+        }
         let step = At::Step(i);
         let before = m.clone();
         let res = exec(&kb, op);
@@ -660,8 +689,21 @@ pub fn run_seq(s: &mut Src, ctx: &mut Ctx) -> Verdict {
             return v;
         }
     }
+    if let Some((p, on_clone)) = clone_plan {
+        if p == ops.len() {
+            left_behind = Some(part_ways(&mut kb, &mut m, p, on_clone));
+        }
+    }
+    if let Some((other, mut om, p)) = left_behind {
+        if let Some(v) = observe_all(&other, &mut om, "clone", At::LeftBehind(p)) {
+            return v;
+        }
+        if let Some(v) = observe_all(&kb, &mut m, "clone", At::LeftBehind(p)) {
+            return v;
+        }
+    }
     if shifting_remove {
-        ctx.nontrivial(hash_of(&ops));
+        ctx.nontrivial(hash_of(&(&ops, clone_plan)));
     }
     Verdict::Pass
 }
